@@ -71,7 +71,21 @@ def impl(c):
         a = notes[0]
         b = Note(beat=a.beat, column=a.column, note_type=NoteType.MINE if a.note_type != NoteType.MINE else NoteType.TAP, player=a.player, keysound_index=99)
         cmp.append([0, -1, a < b, a <= b, a > b, a >= b])
-    return {"notes": obs, "columns": nd.columns, "str_same": str(nd) == t, "cmp": cmp, "stable": bool(stable)}
+    via_chart = True
+    try:
+        from simfile.sm import SMChart
+        from simfile.ssc import SSCChart
+        import random as _r
+        st = _r.Random(len(t)).choice(["dance-single", "dance-double", "pump-single", "my-own-type", "dance-solo"])
+        for ch in (SMChart.blank(), SSCChart.blank()):
+            ch.stepstype = st
+            ch.notes = t
+            ndc = NoteData(ch)
+            if [G.note_obs(n) for n in ndc] != obs or ndc.columns != nd.columns:
+                via_chart = ["%s with steps type %s" % (type(ch).__name__, st), "columns %s" % ndc.columns]
+    except Exception as e:
+        via_chart = ["NoteData(chart) raised %s" % type(e).__name__]
+    return {"notes": obs, "columns": nd.columns, "str_same": str(nd) == t, "cmp": cmp, "stable": bool(stable), "via_chart": via_chart}
 
 
 def requests(c):
@@ -95,12 +109,14 @@ def model(c, ans):
         cmp.append([i, j, ka < kb, ka <= kb, ka > kb, ka >= kb])
     if obs:
         cmp.append([0, -1, False, True, False, True])
-    return {"notes": obs, "columns": cols, "str_same": True, "cmp": cmp, "stable": True}
+    return {"notes": obs, "columns": cols, "str_same": True, "cmp": cmp, "stable": True, "via_chart": True}
 
 
 def oracle(c, o):
     if "__harness_exc__" in o:
         return "library raised %s on well-formed note data" % o["__harness_exc__"]
+    if o.get("via_chart") is not True:
+        return "the same note data read through a chart differs from reading the text: %s" % (o.get("via_chart"),)
     if c["k"] == "grid":
         exp = G.expected_notes(c["g"])
         if o["notes"] != exp:
